@@ -63,13 +63,14 @@ func NewPwAligner(seq1, seq2 Sequence, algo int) *pwaligner {
 	var mat [][]float64
 	var chartopos map[uint8]int
 
-	a1 := seq1.DetectAlphabet()
-	a2 := seq2.DetectAlphabet()
-
-	if (a1 == NUCLEOTIDS || a1 == BOTH) && (a2 == NUCLEOTIDS || a2 == BOTH) {
+	// The substitution matrix is chosen by the residues the sequences are
+	// made of: DNAfull if all of them are in its alphabet, else BLOSUM62
+	// if all of them are in its alphabet (e.g. the stop codon '*' is only
+	// part of the protein alphabet)
+	if inMatrixAlphabet(seq1, dna_to_matrix_pos) && inMatrixAlphabet(seq2, dna_to_matrix_pos) {
 		mat = dnafull_subst_matrix
 		chartopos = dna_to_matrix_pos
-	} else if (a1 == AMINOACIDS || a1 == BOTH) && (a2 == AMINOACIDS || a2 == BOTH) {
+	} else if inMatrixAlphabet(seq1, prot_to_matrix_pos) && inMatrixAlphabet(seq2, prot_to_matrix_pos) {
 		mat = blosum62_subst_matrix
 		chartopos = prot_to_matrix_pos
 	}
@@ -95,6 +96,17 @@ func NewPwAligner(seq1, seq2 Sequence, algo int) *pwaligner {
 		submatrix: mat,
 		chartopos: chartopos,
 	}
+}
+
+// Returns true if all the characters of the sequence (upper case) have
+// a position in the given substitution matrix
+func inMatrixAlphabet(s Sequence, chartopos map[uint8]int) bool {
+	for _, c := range s.SequenceChar() {
+		if _, ok := chartopos[uint8(unicode.ToUpper(rune(c)))]; !ok {
+			return false
+		}
+	}
+	return true
 }
 
 func (a *pwaligner) initMatrix(l1, l2 int) {
